@@ -338,6 +338,8 @@ def _jobs(tier, seed, rnd):
     feas = sorted(p for p in inv["other"]["fea"] if p.startswith("feaLib/data/") and p.count("/") == 2)
     for p in feas:          # compiling a feature file takes milliseconds: all of them in both tiers
         by["fea"].append({"pipeline": "fea", "input": p})
+    for k in range(120 if T else 30):
+        by["fea"].append({"pipeline": "fea", "gen": seed * 1000 + k})
     subs = [r for r in nonaots if r["ncmap"] >= 2 and r["head"] and r["complete"] and r["size"] <= 120000]
     chosen = pick([r for r in subs if r["path"] != "subset/data/TestBSLN-1.ttx"], 18)
     # AAT/OT tables handled by subset code paths of their own: make sure each table tag is represented
@@ -349,15 +351,27 @@ def _jobs(tier, seed, rnd):
             chosen.append(r)
             seen |= set(r["tables"])
     paths = sorted({r["path"] for r in chosen} | {"subset/data/TestBSLN-1.ttx"})
+    # runs with the documented in-place option edits followed by runs with the plain defaults: the outcome of the
+    # second kind must not depend on whether the first kind ran earlier in the same interpreter
+    mut_opts = [["--name-IDs+=7,8,9,16,17", "--layout-features+=smcp,c2sc", "--drop-tables-=GPOS", "--glyph-names"],
+                ["--name-IDs-=0,5", "--name-languages+=0x407", "--hinting-tables-=cvt", "--no-subset-tables+=cmap"],
+                ["--layout-features-=kern,liga", "--layout-scripts+=latn", "--drop-tables+=DSIG,name"]]
+    for i, p in enumerate([q for q in paths if _exists(q)][: (12 if T else 4)]):
+        by["subset"].append({"pipeline": "subset", "input": p, "phase": 0, "opts": mut_opts[i % len(mut_opts)]})
+        by["subset"].append({"pipeline": "subset", "input": p, "phase": 0, "defaults": True})
     for p in paths:
         if _exists(p):
             by["subset"].append({"pipeline": "subset", "input": p, "phase": 0})
             if T:
                 by["subset"].append({"pipeline": "subset", "input": p, "phase": 1, "retain_gids": True})
     var = [r for r in nonaots if r["variable"] and r["complete"] and r["size"] <= 200000]
-    for r in pick(var, 8):
-        by["instance"].append({"pipeline": "instance", "input": r["path"], "mode": "partial"})
-        by["instance"].append({"pipeline": "instance", "input": r["path"], "mode": "full"})
+    cff2var = [r for r in var if r["outlines"] == "CFF2"]
+    picked = {r["path"]: r for r in pick(var, 8) + cff2var[: (len(cff2var) if T else 3)]}
+    for path in sorted(picked):
+        by["instance"].append({"pipeline": "instance", "input": path, "mode": "partial"})
+        by["instance"].append({"pipeline": "instance", "input": path, "mode": "full"})
+        if picked[path]["outlines"] == "CFF2":
+            by["instance"].append({"pipeline": "instance", "input": path, "mode": "full", "downgradeCFF2": True})
     dss = sorted(p for p in inv["other"]["designspace"] if p.startswith("varLib/data/") and p.count("/") == 2)
     for p in dss:
         by["build"].append({"pipeline": "build", "input": p})
@@ -490,6 +504,7 @@ def run_case(case, ctx):
 
 
 # ------------------------------------------------------------------ determinism across interpreters
+EPOCH_FREE = ("recompile", "subset", "instance", "cu2qu", "tablexml")
 PERTURB_ENV = {"TZ": "Pacific/Kiritimati", "LANG": "tr_TR.UTF-8", "LC_ALL": "C", "LANGUAGE": "tr", "HOME": "/nonexistent-vmon-home",
                "USER": "vmon-other", "LOGNAME": "vmon-other", "COLUMNS": "33", "TERM": "dumb", "PYTHONUTF8": "0",
                "HOSTNAME": "vmon-host-b"}
@@ -554,10 +569,20 @@ def run_seeds(case, ctx, rnd):
         for fn in calls:
             ctx.note("clock read by library code: %s" % fn)
     runs = {seeds[0]: base}
-    for s in seeds[1:-1]:
-        runs[s], err = _pipe(spec, s, scratch)
-        if runs[s] is None:
+    for i, s in enumerate(seeds[1:-1]):
+        # the first extra interpreter also runs the jobs in the opposite order: what a job produces must
+        # not depend on what the same interpreter did before (module-level state, shared option defaults)
+        lab = s if i else "%s+reversed" % s
+        runs[lab], err = _pipe(dict(spec, order="reversed") if i == 0 else spec, s, scratch)
+        if runs[lab] is None:
             ctx.inconclusive("pipeline runner failed under seed %s: %s" % (s, err))
+            return
+    if case["pipeline"] in EPOCH_FREE:
+        # inputs are opened with recalcTimestamp=False: nothing of SOURCE_DATE_EPOCH may reach the output
+        lab = "%s+epoch" % seeds[0]
+        runs[lab], err = _pipe(spec, seeds[0], scratch, extra_env={"SOURCE_DATE_EPOCH": str(int(env.EPOCH) + 3 * 86400 + 7)})
+        if runs[lab] is None:
+            ctx.inconclusive("pipeline runner failed under another SOURCE_DATE_EPOCH: %s" % err)
             return
     last = seeds[-1]
     pspec = dict(spec, clock_shift=CLOCK_SHIFT)
@@ -576,7 +601,7 @@ def run_seeds(case, ctx, rnd):
         if len(set(outcomes.values())) > 1:
             ctx.judged()
             lab2 = next(l for l in labels if outcomes[l] != outcomes[labels[0]])
-            ctx.violation({"kind": "hashseed" if "+env" not in lab2 else "environment", "pipeline": job["pipeline"],
+            ctx.violation({"kind": _kind_of_label(lab2), "pipeline": job["pipeline"],
                            "what": "outcome-differs", "outcomes": sorted(set(outcomes.values()))},
                           "%s on %s: %s under seed %s but %s under %s" % (job["pipeline"], job.get("input") or job.get("inputs") or job.get("source"),
                                                                           outcomes[labels[0]], labels[0], outcomes[lab2], lab2),
@@ -614,6 +639,10 @@ def run_seeds(case, ctx, rnd):
                   "interpreters": labels, "inputs": [j.get("input") or j.get("inputs") for j in jobs][:5]}
 
 
+def _kind_of_label(lab):
+    return "environment" if "+env" in lab else "epoch" if "+epoch" in lab else "process-history" if "+reversed" in lab else "hashseed"
+
+
 def _attribute(spec, job, base_rec, lab, rand_seed, seed0, extra, cwd2, scratch, ctx):
     """Which dimension makes the output differ: rerun the job alone with one thing changed at a time."""
     one = {"jobs": [job]}
@@ -622,11 +651,20 @@ def _attribute(spec, job, base_rec, lab, rand_seed, seed0, extra, cwd2, scratch,
     def differs(r):
         return bool(r) and r["jobs"][jid].get("tables") != base_rec["tables"]
 
-    r, _ = _pipe(one, seed0, scratch)
-    if differs(r):
+    if "+epoch" in lab:
+        return "epoch"
+    alone, _ = _pipe(one, seed0, scratch)
+    if differs(alone):
+        again, _ = _pipe(spec, seed0, scratch)
+        if again and again["jobs"][jid].get("tables") == base_rec["tables"]:
+            # reproducible inside the batch, different when the job is the only thing the interpreter does
+            return "process-history"
         # same seed, same environment, another process: clock, pid or address dependence
         r2, _ = _pipe(dict(one, clock_shift=CLOCK_SHIFT), seed0, scratch)
-        return "clock" if (r2 and (r2["clock"].get(jid) or r["clock"].get(jid))) else "unstable-across-processes"
+        return "clock" if (r2 and (r2["clock"].get(jid) or alone["clock"].get(jid))) else "unstable-across-processes"
+    if "+reversed" in lab:
+        r, _ = _pipe(one, lab.split("+")[0], scratch)
+        return "hashseed" if differs(r) else "process-history"
     if "+env" not in lab:
         return "hashseed"
     r, _ = _pipe(one, rand_seed, scratch)
@@ -644,8 +682,10 @@ def _xml_witness(job, tag, lab_a, lab_b, rand_seed, extra, cwd2, scratch):
     for lab in (lab_a, lab_b):
         if "+env" in lab:
             r, _ = _pipe(dict(one, clock_shift=CLOCK_SHIFT), rand_seed, scratch, extra_env=extra, cwd=cwd2)
+        elif "+epoch" in lab:
+            r, _ = _pipe(one, lab.split("+")[0], scratch, extra_env={"SOURCE_DATE_EPOCH": str(int(env.EPOCH) + 3 * 86400 + 7)})
         else:
-            r, _ = _pipe(one, lab, scratch)
+            r, _ = _pipe(one, lab.split("+")[0], scratch)
         x = (r or {}).get("jobs", {}).get(job["id"], {}).get("xml", {}).get(tag, "")
         outs.append(x.splitlines())
     return list(difflib.unified_diff(outs[0], outs[1], "run " + lab_a, "run " + lab_b, lineterm=""))[:40]
@@ -957,10 +997,42 @@ def _edit(font, name, k):
         return False
 
 
+def _set_epoch(k):
+    """History step 'time passes': the pinned clock moves on (an input of both compared histories)."""
+    os.environ["SOURCE_DATE_EPOCH"] = str(int(env.EPOCH) + 100000 * (int(k) + 1))
+
+
+class _Boom(RuntimeError):
+    pass
+
+
+def _failing_save(saver, font, tag):
+    """A save that fails because one table cannot be compiled; the cause is removed afterwards."""
+    if tag not in font:
+        return
+    victim = font[tag]
+
+    def boom(f, _t=tag):
+        raise _Boom(_t)
+
+    victim.compile = boom
+    try:
+        saver()
+    except _Boom:
+        pass
+    finally:
+        try:
+            del victim.compile
+        except AttributeError:
+            pass
+
+
 def _observe(font, op, arg):
     from fontTools.pens.recordingPen import RecordingPen
 
-    if op == "save":
+    if op == "failsave":
+        _failing_save(lambda: font.save(io.BytesIO()), font, arg)
+    elif op == "save":
         b = io.BytesIO()
         font.save(b, reorderTables=arg)
     elif op == "saveXML":
@@ -994,13 +1066,18 @@ def _gen_history(rnd, font, mode):
     if mode == "raw":
         menu = ["obs:save"] * 3 + ["obs:getTableData"] * 3 + ["access"] * 2
     else:
-        menu = ["obs:save"] * 4 + ["obs:saveXML"] * 2 + ["obs:getTableData"] * 3 + ["obs:compile"] * 3 + ["obs:draw"] + ["edit"] * 4 + ["access"]
+        menu = (["obs:save"] * 4 + ["obs:saveXML"] * 2 + ["obs:getTableData"] * 3 + ["obs:compile"] * 3 + ["obs:draw"] + ["obs:failsave"]
+                + ["edit"] * 4 + ["epoch"] + ["access"])
     for _ in range(n):
         m = rnd.choice(menu)
         if m == "access":
             ops.append(["access", rnd.choice(tags), None])
         elif m == "edit":
             ops.append(["edit", rnd.choice(EDITS), rnd.randrange(4)])
+        elif m == "epoch":
+            ops.append(["edit", "epoch", rnd.randrange(6)])
+        elif m == "obs:failsave":
+            ops.append(["obs", "failsave", rnd.choice(tags)])
         elif m == "obs:save":
             ops.append(["obs", "save", rnd.choice([True, True, False, None])])
         elif m == "obs:saveXML":
@@ -1019,7 +1096,17 @@ def _gen_history(rnd, font, mode):
 
 def _play(case, mode, k, ops, with_obs, ctx=None):
     """Returns (final bytes | None, error string | None, applied-edit flags, index of raising observation)."""
+    keep = os.environ.get("SOURCE_DATE_EPOCH")
+    try:
+        return _play_inner(case, mode, k, ops, with_obs)
+    finally:
+        os.environ["SOURCE_DATE_EPOCH"] = keep if keep is not None else env.EPOCH
+
+
+def _play_inner(case, mode, k, ops, with_obs):
     font = _fresh(case, mode, k)
+    if mode != "raw" and k % 2:
+        font.recalcTimestamp = True       # let head.modified follow the (pinned, history-controlled) clock
     applied = []
     for i, (kind, a, b) in enumerate(ops):
         if kind == "access":
@@ -1029,6 +1116,9 @@ def _play(case, mode, k, ops, with_obs, ctx=None):
                 raise
             except Exception as e:
                 return None, "access:%s:%s" % (a, type(e).__name__), applied, None
+        elif kind == "edit" and a == "epoch":
+            _set_epoch(b)
+            applied.append(True)
         elif kind == "edit":
             applied.append(_edit(font, a, b))
         elif with_obs:
@@ -1177,13 +1267,18 @@ def _gen_coll_history(rnd, coll):
     n = rnd.randrange(3, 11)
     nm = len(coll.fonts)
     ops = []
-    menu = ["obs:csave"] * 4 + ["obs:msave"] * 2 + ["obs:csaveXML"] + ["obs:mget"] * 2 + ["obs:mcompile"] * 2 + ["edit"] * 5 + ["access"]
+    menu = (["obs:csave"] * 4 + ["obs:msave"] * 2 + ["obs:csaveXML"] + ["obs:mget"] * 2 + ["obs:mcompile"] * 2 + ["obs:cfail"] * 2
+            + ["edit"] * 5 + ["epoch"] * 2 + ["access"])
     strong = ["hmtx.all", "glyf.far", "hmtx.advance", "glyf.move", "name.add", "OS/2.usWeightClass", "hhea.lineGap", "cmap.add"]
     for _ in range(n):
         m = rnd.randrange(nm)
         tags = [t for t in coll.fonts[m].keys() if t != "GlyphOrder"]
         c = rnd.choice(menu)
-        if c == "edit":
+        if c == "epoch":
+            ops.append(["edit", m, "epoch", rnd.randrange(6)])
+        elif c == "obs:cfail":
+            ops.append(["obs", "cfail", m, rnd.choice(tags)])
+        elif c == "edit":
             ops.append(["edit", m, rnd.choice(strong), rnd.randrange(4)])
         elif c == "access":
             ops.append(["access", m, rnd.choice(tags), None])
@@ -1200,14 +1295,28 @@ def _gen_coll_history(rnd, coll):
     # the shape that matters most: edit, save the collection, (save again)
     if not any(o[0] == "edit" for o in ops):
         ops.insert(0, ["edit", rnd.randrange(nm), rnd.choice(strong[:4]), rnd.randrange(4)])
-    last_edit = max(i for i, o in enumerate(ops) if o[0] == "edit")
+    if any(o[0] == "obs" and o[1] == "cfail" for o in ops):
+        last_fail = max(i for i, o in enumerate(ops) if o[0] == "obs" and o[1] == "cfail")
+        ops.insert(last_fail + 1, ["edit", 0, "epoch", rnd.randrange(6, 12)])
+    last_edit = max(i for i, o in enumerate(ops) if o[0] == "edit" and o[2] != "epoch") if any(o[0] == "edit" and o[2] != "epoch" for o in ops) else 0
     if not any(o[0] == "obs" and o[1] == "csave" for o in ops[last_edit:]):
         ops.append(["obs", "csave", True, None])
     return ops
 
 
 def _play_coll(case, k, ops, with_obs):
+    keep = os.environ.get("SOURCE_DATE_EPOCH")
+    try:
+        return _play_coll_inner(case, k, ops, with_obs)
+    finally:
+        os.environ["SOURCE_DATE_EPOCH"] = keep if keep is not None else env.EPOCH
+
+
+def _play_coll_inner(case, k, ops, with_obs):
     coll = _fresh_coll(case, k)
+    if k % 2:
+        for f in coll.fonts:
+            f.recalcTimestamp = True
     applied = []
     for i, op in enumerate(ops):
         if op[0] == "access":
@@ -1217,11 +1326,16 @@ def _play_coll(case, k, ops, with_obs):
                 raise
             except Exception as e:
                 return None, "access:%s" % type(e).__name__, applied
+        elif op[0] == "edit" and op[2] == "epoch":
+            _set_epoch(op[3])
+            applied.append(True)
         elif op[0] == "edit":
             applied.append(_edit(coll.fonts[op[1]], op[2], op[3]))
         elif with_obs:
             try:
-                if op[1] == "csave":
+                if op[1] == "cfail":
+                    _failing_save(lambda: coll.save(io.BytesIO()), coll.fonts[op[2]], op[3])
+                elif op[1] == "csave":
                     coll.save(io.BytesIO(), shareTables=op[2])
                 elif op[1] == "csaveXML":
                     coll.saveXML(io.StringIO())
